@@ -416,6 +416,22 @@ func runC02(sc *SessScript) *sim.Outcome {
 			if op.F%2 == 0 {
 				s.Exec(SOp{K: "flush"})
 			}
+		case "injcommit":
+			// somebody who has seen the traffic (instance tags travel in the clear) sends the receiver a D-H Commit of his
+			// own; the answer is lost. Starting an exchange must not weaken the session that is still in use.
+			rcv := op.W & 1
+			rr := sim.NewRand(uint64(7000 + op.L))
+			adv := ref.NewParty(uint16(sc.Cfg.V), refKey(1), func(n int) []byte { x := make([]byte, n); rr.Read(x); return append([]byte{}, x...) })
+			if sc.Cfg.V == 3 && s.W.P[rcv].C.IsEncrypted() {
+				adv.OurTag, adv.TheirTag = s.W.P[rcv].C.GetTheirInstanceTag(), s.W.P[rcv].C.GetOurInstanceTag()
+				if op.F%2 == 0 {
+					adv.TheirTag = 0
+				}
+			}
+			before := len(s.W.Q[rcv])
+			s.W.Receive(rcv, adv.StartAKE())
+			s.W.Q[rcv] = s.W.Q[rcv][:before]
+			o.Class("stray-dh-commit")
 		case "atk":
 			r.attack(op.W&1, op)
 		case "rekey":
@@ -498,7 +514,7 @@ func genAtk(rt *rapid.T) SOp {
 
 func TestProp_C02_Attack(t *testing.T) {
 	defer sim.MarkCompleted("C02attack", false)
-	kinds := []string{"pp", "pp", "send", "send", "send", "dl", "dl", "holdback", "holdback", "atk", "atk", "atk", "atk", "atk", "atk", "rekey", "smp", "ans", "xk", "age", "injplain", "injplain"}
+	kinds := []string{"pp", "pp", "send", "send", "send", "dl", "dl", "holdback", "holdback", "injcommit", "atk", "atk", "atk", "atk", "atk", "atk", "rekey", "smp", "ans", "xk", "age", "injplain", "injplain"}
 	rapid.Check(t, func(rt *rapid.T) {
 		sc := &SessScript{Cfg: genSessCfg(rt)}
 		switch rapid.IntRange(0, 3).Draw(rt, "wsstart") {
